@@ -4,7 +4,7 @@ thread, the projection of everything observable onto the event alphabet of spec/
 
 Scenario (dict):
   conns      list of per-attempt scripts:
-               accept (bool), status (101 | other), events: [(delay_ms, item)], pong: latency ms | None |
+               headers (extra lines of the 101 response, e.g. Set-Cookie), accept (bool), status (101 | other), events: [(delay_ms, item)], pong: latency ms | None |
                list per ping | {"stop_after": k, "latency": ms}, answer_close (bool)
              item: ("text", str) ("binary", bytes) ("frag", op, [parts]) ("ping", b) ("pong", b)
                    ("close", status|None, reason) ("eof",) ("reset",) ("bad",) ("badutf8",) ("burst", [items])
@@ -167,7 +167,7 @@ class AppNet:
                 status = sc.get("status", 101)
                 if status == 101:
                     self.sched.ev("dial", cid=cid, outcome="established")
-                    sock.feed(wire.response_head(key))
+                    sock.feed(wire.response_head(key, extra=[h.encode("latin-1") for h in sc.get("headers", [])]))
                     t = self.sched.now
                     for delay, item in sc.get("events", []):
                         t += delay / 1000.0
@@ -436,7 +436,7 @@ def run_app(sc, schedule=None, seed=None, line_preempt=None):
             return static + ["X-Seq: %d" % calls["n"]]
         akw["header"] = header_fn
     kw.update(akw)
-    url = ("wss" if sc.get("tls") else "ws") + "://app.test/x"
+    url = ("wss" if sc.get("tls") else "ws") + "://%s/x" % sc.get("url_host", "app.test")
     runkw = dict(sc.get("run", {}))
     ext = None
     if runkw.pop("dispatcher", None) == "ext":
